@@ -34,6 +34,9 @@ pub const FRAG_STEMS: &[&str] = &[
 pub const ENUM_VALUE_STEMS: &[&str] = &[
     "north", "south", "east", "west", "red", "green", "blue", "open", "closed", "pending",
     "active", "hidden", "small", "large", "first", "last",
+    // `OTHER` is one of the most common enum values in real schemas; the generated enum's own
+    // catch-all variant is called `Other`
+    "other",
 ];
 
 /// Strict + reserved keywords of editions 2015..2021 (GraphQL forbids `true`, `false`, `null`
@@ -308,7 +311,7 @@ pub fn enum_value_name(t: &mut Tape, scope: &mut Scope, cfg: &NameCfg) -> String
         }
         let style = if t.chance(cfg.style_percent) { *t.pick(ALL_STYLES) } else { Style::Screaming };
         let n = styled(&words, style);
-        if n != "Other" && scope.try_insert(&n) {
+        if scope.try_insert(&n) {
             return n;
         }
     }
